@@ -52,6 +52,18 @@ def rule_same_reactions(ctx):
     ctx.check("executor.run_hash_job" in ast.unparse(gh.node) and "hash_queue.submit" in ast.unparse(gh.node), gh.fq, "gather_hashes runs each job through Executor.run_hash_job", "hash results are applied another way on one side", "run_hash_job")
     only_restart = {f for f in restart - watch if f.startswith("startup.rescan_")}
     ctx.check(only_restart <= {"startup.rescan_env_vars", "startup.rescan_files", "startup.rescan_nglobs"}, "startup.resume_from_db", "restart-only scans are the three rescans", f"{sorted(only_restart)}", "rescan_env_vars has no watch twin: the environment of a running director cannot change")
+    # the glob reaction of both sides iterates the same registrations
+    sel = {}
+    for fq in ("workflow.Workflow.process_nglob_changes", "startup.rescan_nglobs"):
+        fi = ctx.prog.func(fq)
+        calls = [c for c in calls_in(fi.node) if callee_name(c) == "nglob_registrations"]
+        if len(calls) != 1:
+            raise AnalysisError(f"{fq}: expected one nglob_registrations call, found {len(calls)}")
+        c = calls[0]
+        sel[fq] = (tuple(ast.unparse(a) for a in c.args), tuple(sorted((k.arg, ast.unparse(k.value)) for k in c.keywords)))
+    a, b = sel["workflow.Workflow.process_nglob_changes"], sel["startup.rescan_nglobs"]
+    ctx.check(a == b, "workflow.Workflow.process_nglob_changes", "watch-side glob reaction iterates the same registrations as the restart rescan",
+              f"watch side selects nglob_registrations{a}, restart side nglob_registrations{b}: a pattern of a detached step is refreshed by a restart but not by a watch-mode rebuild (or the reverse)", f"both: {a}")
     sb = ctx.prog.func("director.DirectorHandler.start_build_phase")
     src = _norm(ast.unparse(sb.node))
     ctx.check("for step in self.workflow.steps(StepState.FAILED): self.workflow.mark_step_pending(step)" in src, sb.fq, "rebuild retries FAILED steps like reset_interrupted_steps does", "failed steps are not retried on a watch-mode rebuild", "same as restart")
@@ -163,6 +175,7 @@ RULES = [
 ]
 
 MUTANTS = [
+    Mutant("watch-globs-attached-only", "workflow.py", in_function("Workflow.process_nglob_changes", replace_once("self.nglob_registrations(include_detached=True)", "self.nglob_registrations()")), ("R-C14-1",)),
     Mutant("no-glob-reaction", "watcher.py", in_function("Watcher.run_once", replace_once("            self.workflow.process_nglob_changes(self.deleted, self.updated)\n", "            pass\n")), ("R-C14-1", "R-C14-3")),
     Mutant("rebuild-no-retry", "director.py", in_function("DirectorHandler.start_build_phase", lambda s: s.replace("            for step in self.workflow.steps(StepState.FAILED):\n                self.workflow.mark_step_pending(step)\n", "            pass\n") if "self.workflow.mark_step_pending(step)" in s else None), ("R-C14-1",)),
     Mutant("rescan-skips-built", "startup.py", replace_once("data = (FileState.PLANNED.value, FileState.VOLATILE.value)", "data = (FileState.PLANNED.value, FileState.BUILT.value)"), ("R-C14-2",)),
